@@ -2,6 +2,7 @@
 from engine import guards as G
 from engine import mir
 from . import common as K
+from . import detectors as D
 from .common import POOL, SLOT_STATE, fshort
 
 EXPLANATION = (
@@ -92,6 +93,11 @@ def ob_s2n_table(run, oid):
             o.check(gne is not None, key + "|own-vote", "own notar vote present and for a different block", sp, det)
         else:
             o.fail(key + "|own-vote", "SafeToNotar returned without the node having voted (skip, or notar for another block)", sp, det)
+        rec = [lambda a: a[0] == "bool" and a[1][0][0] == "call" and a[1][0][1].startswith(EPOCH + "is_"),
+               lambda a: a[0] in ("is_some", "eq") and any(K.mentions_field(x, "parents", "SlotState") for x in a[1] if isinstance(x, tuple)),
+               lambda a: a[0] in ("is_some", "variant", "eq") and any((K.mentions_field(x, "skip", "SlotVotes") or K.mentions_field(x, "notar", "SlotVotes")) and K.mentions_call(x, "own_id") for x in a[1] if isinstance(x, tuple))]
+        extra = D.extra_guards(prog, b, bb, rec)
+        o.check(not extra, key + "|no-extra-condition", "no further condition delays or suppresses SafeToNotar", sp, {"extra": G.atoms_show(extra)})
         # recorded as sent on the same path
         ins = [c.bb for c in b.calls() if c.name.endswith("SortedVecSet::insert") and K.is_field(b.operand_term(c.args[0]), "sent_safe_to_notar", "SlotState")]
         o.check(any(b.dominates(i, bb) for i in ins) or (bool(ins) and b.always_followed_by(bb, ins)), key + "|recorded", "sent_safe_to_notar.insert(block_hash) on the same path", sp)
@@ -238,6 +244,9 @@ def ob_safe_to_skip(run, oid):
         w = [x[0] for x in K.writes_of_field(b, "SlotState", "sent_safe_to_skip", const=1)]
         o.check(bool(w) and b.always_followed_by(bb, w), key + "|marks-sent", "always followed by sent_safe_to_skip = true", sp)
         sigs.append(tuple(sorted(G.atoms_show([x for x in (g1, g2, g3) if x is not None]))))
+        known = [x for x in (g1, g2, g3) if x is not None]
+        extra = D.extra_guards(prog, b, bb, [lambda a, known=known: any(a[:3] == k[:3] for k in known)])
+        o.check(not extra, key + "|no-extra-condition", "no further condition delays or suppresses the event ('as soon as all conditions hold')", sp, {"extra": G.atoms_show(extra)})
     if len(sigs) >= 2:
         o.check(all(s == sigs[0] for s in sigs), "PoolEvent::SafeToSkip|sibling-agreement", "the safe-to-skip predicate is identical at all construction sites", "", {"predicates": [list(s) for s in sigs]})
     # the flag is written only to true and only there
@@ -272,6 +281,13 @@ def ob_s2n_events(run, oid):
             if a[0] == "bool" and a[2] is False and a[1][0][0] == "call" and a[1][0][1].endswith("SortedVecSet::contains") and K.is_field(a[1][0][2][0], "sent_safe_to_notar", "SlotState"):
                 g2 = a
         o.check(g2 is not None, key + "|not-sent", "guarded by !sent_safe_to_notar.contains(hash)", sp)
+        rec = [lambda a: a[0] == "variant" and a[1][0][0] == "call" and a[1][0][1] == SS + "::check_safe_to_notar",
+               lambda a: a[0] == "bool" and a[1][0][0] == "call" and a[1][0][1].endswith("SortedVecSet::contains") and K.is_field(a[1][0][2][0], "sent_safe_to_notar", "SlotState"),
+               lambda a: a[0] == "eq" and a[2] is True and any(K.mentions_call(x, "own_id") for x in a[1]) and fshort(b.defpath).endswith("add_vote"),
+               # notify_parent_certified: the parent entry exists (precondition, panics otherwise)
+               lambda a: a[0] == "is_some" and a[2] is True and K.mentions_field(a[1][0], "parents", "SlotState")]
+        extra = D.extra_guards(prog, b, bb, rec)
+        o.check(not extra, key + "|no-extra-condition", "no further condition delays or suppresses the event", sp, {"extra": G.atoms_show(extra)})
 
 
 def ob_bookkeeping(run, oid):
